@@ -28,7 +28,7 @@ func runC17Join(c *Case) {
 	panicText := c.Bubble(func() {
 		cliPeer, rtrPeer := transport.LinkedPeersQSize(pick(r, []int{0, 1}))
 		log := sim.NewLogBuf(100)
-		rtr := &scriptedRouter{peer: rtrPeer, start: time.Now(), quit: make(chan struct{}), deaf: make(chan struct{}), sendMu: make(chan struct{}, 1)}
+		rtr := &scriptedRouter{peer: rtrPeer, start: time.Now(), quit: make(chan struct{}), deaf: make(chan struct{}), pauseSig: make(chan struct{}, 1), sendMu: make(chan struct{}, 1)}
 		go rtr.reader()
 		cfg := client.Config{Realm: "realm1", ResponseTimeout: tmo, Logger: log}
 		if withAuth {
